@@ -441,16 +441,23 @@ class KafkaCodec(object):
 
             elif codec == CODEC_GZIP:
                 gz = gzip_decode(value)
-                for offset, msg in KafkaCodec._decode_message_set_iter(gz):
-                    yield offset, msg
+                yield from absolute_offsets(offset, list(KafkaCodec._decode_message_set_iter(gz)))
 
             elif codec == CODEC_SNAPPY:
                 snp = snappy_decode(value)
-                for offset, msg in KafkaCodec._decode_message_set_iter(snp):
-                    yield offset, msg
+                yield from absolute_offsets(offset, list(KafkaCodec._decode_message_set_iter(snp)))
 
             else:
                 raise ProtocolError("Unsupported codec 0b{:b}".format(codec))
+
+        def absolute_offsets(wrapper_offset, inner):
+            # Message format 1 (KIP-31): the offsets inside a compressed
+            # wrapper are relative, and the wrapper carries the absolute
+            # offset of the last inner message.
+            if inner:
+                base = wrapper_offset - inner[-1].offset
+                for relative_offset, msg in inner:
+                    yield base + relative_offset, msg
 
         if magic == 0:
             return v0(data, offset, cur)
